@@ -114,8 +114,8 @@ def run(ctx):
                 dead_kind = objs[i][0]
                 objs[i][1] = None; gc.collect()
                 model_ops.append(['delete', i]); history.append(['delete', i])
-                if rng.random() < 0.7:
-                    # … and straight away a new object of the same kind (it may well land on the recycled address)
+                for _rep in range(2 if rng.random() < 0.7 else 0):
+                    # … and straight away new objects of the same kind (they may well land on the recycled addresses)
                     before = ncallbacks() if observed else 0
                     o, payload = make_object(pyhf, rng, dead_kind)
                     objs.append([dead_kind, o, ncallbacks() - before if observed else 0, payload])
